@@ -162,6 +162,12 @@ def run(ctx):
     total_cases = len(cases)
     if not t:
         cases = select_quick(ctx, cases, 90)
+    else:
+        # exhaustive for the quick bounds (<= 3 ops, children of one op), seeded sample of the larger space
+        small = [c for c in cases if sum(len(x) for x in c["script"]) <= 3 and all(len(x) <= 1 for x in c["script"][1:])]
+        rest = [c for c in cases if c not in small]
+        ctx.rng.shuffle(rest)
+        cases = small + rest[:1800]
     if ctx.replay and ctx.replay.get("case"):
         rc = ctx.replay["case"]
         cases = [{"script": rc.get("script_ops") or [], "dec": rc.get("dec") or {}, "raw": "" if rc.get("script_ops") else rc.get("raw", "")}]
